@@ -322,3 +322,127 @@ func RunNative(resultFile string, items []NativeItem) {
 		enc.Encode(runOne(it))
 	}
 }
+
+// ---------------------------------------------------------------------------
+// Spec256: specification-level 256-bit EVM word operations.  Under the engine
+// these are SMT-LIB bit-vector operators on (_ BitVec 256) (independent of the
+// Go code under test); natively they are a straightforward math/big reference.
+
+var (
+	two256  = new(big.Int).Lsh(big.NewInt(1), 256)
+	two255  = new(big.Int).Lsh(big.NewInt(1), 255)
+	mask256 = new(big.Int).Sub(two256, big.NewInt(1))
+)
+
+func toU(x *big.Int) *big.Int { return new(big.Int).And(x, mask256) }
+func toS(x *big.Int) *big.Int {
+	u := toU(x)
+	if u.Cmp(two255) >= 0 {
+		u.Sub(u, two256)
+	}
+	return u
+}
+func b2i(b bool) *big.Int {
+	if b {
+		return big.NewInt(1)
+	}
+	return big.NewInt(0)
+}
+
+func Spec256(op string, a ...*big.Int) *big.Int {
+	u := func(i int) *big.Int { return toU(a[i]) }
+	s := func(i int) *big.Int { return toS(a[i]) }
+	switch op {
+	case "add":
+		return toU(new(big.Int).Add(u(0), u(1)))
+	case "sub":
+		return toU(new(big.Int).Sub(u(0), u(1)))
+	case "mul":
+		return toU(new(big.Int).Mul(u(0), u(1)))
+	case "div":
+		if u(1).Sign() == 0 {
+			return big.NewInt(0)
+		}
+		return new(big.Int).Quo(u(0), u(1))
+	case "mod":
+		if u(1).Sign() == 0 {
+			return big.NewInt(0)
+		}
+		return new(big.Int).Rem(u(0), u(1))
+	case "sdiv":
+		if u(1).Sign() == 0 {
+			return big.NewInt(0)
+		}
+		return toU(new(big.Int).Quo(s(0), s(1)))
+	case "smod":
+		if u(1).Sign() == 0 {
+			return big.NewInt(0)
+		}
+		return toU(new(big.Int).Rem(s(0), s(1)))
+	case "addmod":
+		if u(2).Sign() == 0 {
+			return big.NewInt(0)
+		}
+		return new(big.Int).Rem(new(big.Int).Add(u(0), u(1)), u(2))
+	case "mulmod":
+		if u(2).Sign() == 0 {
+			return big.NewInt(0)
+		}
+		return new(big.Int).Rem(new(big.Int).Mul(u(0), u(1)), u(2))
+	case "and":
+		return new(big.Int).And(u(0), u(1))
+	case "or":
+		return new(big.Int).Or(u(0), u(1))
+	case "xor":
+		return new(big.Int).Xor(u(0), u(1))
+	case "not":
+		return new(big.Int).Xor(u(0), mask256)
+	case "lt":
+		return b2i(u(0).Cmp(u(1)) < 0)
+	case "gt":
+		return b2i(u(0).Cmp(u(1)) > 0)
+	case "slt":
+		return b2i(s(0).Cmp(s(1)) < 0)
+	case "sgt":
+		return b2i(s(0).Cmp(s(1)) > 0)
+	case "eq":
+		return b2i(u(0).Cmp(u(1)) == 0)
+	case "iszero":
+		return b2i(u(0).Sign() == 0)
+	case "shl": // (shift, value)
+		if u(0).Cmp(big.NewInt(256)) >= 0 {
+			return big.NewInt(0)
+		}
+		return toU(new(big.Int).Lsh(u(1), uint(u(0).Uint64())))
+	case "shr":
+		if u(0).Cmp(big.NewInt(256)) >= 0 {
+			return big.NewInt(0)
+		}
+		return new(big.Int).Rsh(u(1), uint(u(0).Uint64()))
+	case "sar":
+		if u(0).Cmp(big.NewInt(256)) >= 0 {
+			if s(1).Sign() < 0 {
+				return new(big.Int).Set(mask256)
+			}
+			return big.NewInt(0)
+		}
+		return toU(new(big.Int).Rsh(s(1), uint(u(0).Uint64())))
+	case "byte": // (index, word): index 0 = most significant byte
+		if u(0).Cmp(big.NewInt(32)) >= 0 {
+			return big.NewInt(0)
+		}
+		sh := uint(8 * (31 - u(0).Uint64()))
+		return new(big.Int).And(new(big.Int).Rsh(u(1), sh), big.NewInt(0xff))
+	case "signextend": // (k, x)
+		if u(0).Cmp(big.NewInt(31)) >= 0 {
+			return u(1)
+		}
+		bit := uint(8*u(0).Uint64() + 7)
+		m := new(big.Int).Sub(new(big.Int).Lsh(big.NewInt(1), bit+1), big.NewInt(1))
+		if u(1).Bit(int(bit)) == 1 {
+			return new(big.Int).Or(u(1), new(big.Int).Xor(m, mask256))
+		}
+		return new(big.Int).And(u(1), m)
+	}
+	panic("verifsym.Spec256: unknown op " + op)
+}
